@@ -5,6 +5,17 @@ ROOT = os.path.dirname(os.path.dirname(os.path.abspath(__file__)))
 ids = [json.loads(l)["id"] for l in open(os.path.join(ROOT, "properties.jsonl"))]
 
 CLAIMED = {
+ "C15": dict(
+   text="Lean 4 theorems, for every octet string in every position: parse_qsl∘urlencode = id (Lemmas/Percent) and its corollaries "
+        "add_params_preserves_existing, token_body_roundtrip, grant_uri_roundtrip, post/none_roundtrip, bearer_query_body_roundtrip; basic_roundtrip "
+        "(Base64 round trip + first-colon split + unquote identity, under the property's own side conditions), bearer_header_roundtrip, "
+        "code_response_roundtrip and state_mismatch_reported. Correspondence: every prepare_*/encode_*/parse_* function and extract_basic_authorization "
+        "against the compiled model on hostile text; end-to-end runs of the requests, httpx and async-httpx clients with recording transports whose wire "
+        "requests are parsed by the library's server half and compared with each other.",
+   note="Trusted: Lean kernel; octet-level model (UTF-8; latin-1 for the Basic header); urlparse/urlunparse component splitting and the HTTP libraries are "
+        "exercised, not modelled; str-level unquote(errors='replace') outside the model.",
+   technique="Lean 4 proof (codec round trips for all inputs) + differential correspondence + three-client end-to-end oracle",
+   design="§4 C15"),
  "C11": dict(
    text="Lean 4 theorems over Model/OAuth1Sig.lean (escape, normalize_parameters with merge sort, construct_base_string, normalize_base_string_uri, "
         "signing key, HMAC signature): base_string_injective (base string determines upper-cased method, normalised URI, normalised parameters), "
